@@ -24,7 +24,7 @@ type Win struct {
 }
 
 func (w Win) valid(C int) bool {
-	if w.Kr < 0 || w.A < 0 || w.A > w.B || w.B > w.Kr || w.Partial < 0 || C*w.Kr > 1<<20 || w.Fix < 0 || w.Fix == 3 || w.Fix > 1<<12 {
+	if w.Kr < 0 || w.A < 0 || w.A > w.B || w.B > w.Kr || w.Partial < 0 || C*w.Kr > 1<<20 || w.Fix < 0 || w.Fix > 1<<12 {
 		return false
 	}
 	return w.Partial == 0 || (w.Partial < C && w.B < w.Kr)
@@ -87,8 +87,13 @@ func Check(c *Case) (res kit.Result) {
 	sroot, src, _, soff, sn := build(c.S, C, c.Src)
 	droot, dst, dmodel, doff, dn := build(c.D, C, c.Dst)
 	// source samples are written through the root (not through the window header)
+	swrite := sroot
+	if c.Src.Fix == 3 {
+		swrite = sroot.Slice(0, c.Src.Kr) // the source header itself is never written through
+		res.Class("sourceHeaderFilledOnlyThroughAnAlias")
+	}
 	for k := 0; k < sn; k++ {
-		sroot.Set(soff+k, c.Vals[k%len(c.Vals)])
+		swrite.Set(soff+k, c.Vals[k%len(c.Vals)])
 	}
 	if f := c.Src.Fix; f == 1 || f == 2 {
 		res.Class("headerNeverWrittenThrough")
@@ -277,6 +282,9 @@ func genWin(t *rapid.T, label string, C int) Win {
 		w.Partial = rapid.IntRange(1, C-1).Draw(t, label+"Partial")
 	}
 	w.Fix = kit.GenFix(t, label+"Fix", C)
+	if w.A == 0 && w.B == w.Kr && w.Partial == 0 && rapid.IntRange(0, 2).Draw(t, label+"Self") == 0 {
+		w.Fix = 3 // the whole root itself, filled only through an alias
+	}
 	return w
 }
 
